@@ -97,10 +97,13 @@ type B struct {
 	True   *T
 	False  *T
 	NoSimp bool // disable the non-trivial rewrites (used by self-tests)
+	// Known holds Bool terms already asserted on the current path (true) or whose
+	// negation was asserted (false); used to resolve ite / branch conditions.
+	Known map[*T]bool
 }
 
 func NewB() *B {
-	b := &B{tab: make(map[key]*T, 1<<16)}
+	b := &B{tab: make(map[key]*T, 1<<10)}
 	b.True = b.mk(OTrue, 0, nil, nil, nil, 0, "")
 	b.False = b.mk(OFalse, 0, nil, nil, nil, 0, "")
 	return b
@@ -680,11 +683,53 @@ func (b *B) BOr(x, y *T) *T {
 	return b.mk(OBOr, 0, x, y, nil, 0, "")
 }
 
+// Assume records that c holds on the current path.
+func (b *B) Assume(c *T) {
+	if b.Known == nil {
+		b.Known = map[*T]bool{}
+	}
+	switch c.Op {
+	case OBNot:
+		b.Known[c.A] = false
+	case OBAnd:
+		b.Known[c] = true
+		b.Assume(c.A)
+		b.Assume(c.B)
+	default:
+		b.Known[c] = true
+	}
+}
+
+// Decided reports whether c is already known on the current path.
+func (b *B) Decided(c *T) (val, ok bool) {
+	if c.IsTrue() {
+		return true, true
+	}
+	if c.IsFalse() {
+		return false, true
+	}
+	if b.Known == nil {
+		return false, false
+	}
+	if c.Op == OBNot {
+		v, ok := b.Known[c.A]
+		return !v, ok
+	}
+	v, ok := b.Known[c]
+	return v, ok
+}
+
 func (b *B) Ite(c, x, y *T) *T {
 	if c.IsTrue() {
 		return x
 	}
 	if c.IsFalse() {
+		return y
+	}
+	if v, ok := b.Decided(c); ok {
+		if v {
+			return x
+		}
 		return y
 	}
 	if x == y {
